@@ -179,7 +179,7 @@ func hasNonFinite(v any) bool {
 }
 
 func runC45(c *core.Ctx) {
-	c.Rule = "JSON-like Go values of depth <=2 (quick) / 3 (thorough) over 23 leaves (nil, bools, +-0, 1.5, MaxFloat64, denormal, int, MaxInt64, MaxUint64, int32, uint8, float32, strings incl. invalid UTF-8, []byte, json.Number, NaN, Inf, an unsupported type) with slices and maps of <=2 elements: NewValue fails iff the documented conversion is undefined (unsupported type, invalid UTF-8), otherwise AsInterface(NewValue(v)) deep-equals the documented conversion (integers and float32 to float64, []byte to base64), NewStruct/AsMap and NewList/AsSlice likewise, and for finite values encoding/json of AsInterface decodes to the same JSON value as protojson of the Value. anypb: for EVERY registered message type x every single-slot message: New / MarshalFrom / UnmarshalTo / UnmarshalNew / MessageIs / MessageName identities, MessageIs false for another type, UnmarshalTo into another type fails; for EVERY ordered pair of registered message types MessageIs is name equality and UnmarshalTo refuses the other type; 10 near-miss type URLs per type (prefix/suffix characters without a slash, trailing slash, nested slashes, empty): MessageName is the part after the last slash and MessageIs is equality with it"
+	c.Rule = "JSON-like Go values of depth <=2 (quick) / 3 (thorough) over 23 leaves (nil, bools, +-0, 1.5, MaxFloat64, denormal, int, MaxInt64, MaxUint64, int32, uint8, float32, strings incl. invalid UTF-8, []byte, json.Number, NaN, Inf, an unsupported type) with slices and maps of <=2 elements: NewValue fails iff the documented conversion is undefined (unsupported type, invalid UTF-8), otherwise AsInterface(NewValue(v)) deep-equals the documented conversion (integers and float32 to float64, []byte to base64), NewStruct/AsMap and NewList/AsSlice likewise, and for finite values encoding/json of AsInterface decodes to the same JSON value as protojson of the Value. anypb: for EVERY registered message type x every single-slot message: New / MarshalFrom / UnmarshalTo / UnmarshalNew / MessageIs / MessageName identities, MessageIs false for another type, UnmarshalTo into another type fails; UnmarshalTo into a destination that already holds another case's content, and UnmarshalNew, give exactly the verdict and content of proto.Unmarshal of the payload (partial and empty payloads included, with and without AllowPartial); for EVERY ordered pair of registered message types MessageIs is name equality and UnmarshalTo refuses the other type; 10 near-miss type URLs per type (prefix/suffix characters without a slash, trailing slash, nested slashes, empty): MessageName is the part after the last slash and MessageIs is equality with it"
 	c.Exhaustive = true
 	var n atomic.Int64
 	var vals []any
@@ -271,10 +271,31 @@ func runC45(c *core.Ctx) {
 		for _, s := range alpha {
 			cases = append(cases, []*univ.Slot{s})
 		}
-		for _, slots := range cases {
+		for ci, slots := range cases {
 			na.Add(1)
 			c.Guard(func() string { return fmt.Sprintf("anypb type=%s case=%s", name, univ.Names(slots)) }, func() {
 				m := univ.Build(mt, slots, nil).Interface()
+				// UnmarshalTo / UnmarshalNew are proto.Unmarshal of the payload: same verdict
+				// (required fields included) and same content, also when the destination
+				// is not empty (it holds the neighbouring case's content) and when the
+				// payload is empty
+				if body, err := (proto.MarshalOptions{AllowPartial: true}).Marshal(m); err == nil {
+					prev := cases[(ci+len(cases)-1)%len(cases)]
+					x := &anypb.Any{TypeUrl: "type.googleapis.com/" + string(name), Value: body}
+					for _, partial := range []bool{false, true} {
+						uo := proto.UnmarshalOptions{AllowPartial: partial}
+						ref := univ.Build(mt, prev, nil).Interface()
+						refErr := uo.Unmarshal(body, ref)
+						dst := univ.Build(mt, prev, nil).Interface()
+						gotErr := anypb.UnmarshalTo(x, dst, uo)
+						if (gotErr == nil) != (refErr == nil) || !proto.Equal(dst, ref) {
+							c.Violation(fmt.Sprintf("anypb.UnmarshalTo into a used destination differs from proto.Unmarshal of the payload type=%s case=%s destination=%s AllowPartial=%v", name, univ.Names(slots), univ.Names(prev), partial), map[string]any{"err": fmt.Sprint(gotErr), "want_err": fmt.Sprint(refErr)})
+						}
+						if nm, err := anypb.UnmarshalNew(x, uo); (err == nil) != (uo.Unmarshal(body, mt.New().Interface()) == nil) || err == nil && !proto.Equal(nm, m) {
+							c.Violation(fmt.Sprintf("anypb.UnmarshalNew differs from proto.Unmarshal of the payload type=%s case=%s AllowPartial=%v", name, univ.Names(slots), partial), fmt.Sprint(err))
+						}
+					}
+				}
 				// partial messages: Any helpers use default options, which require initialization
 				if proto.CheckInitialized(m) != nil {
 					return
